@@ -196,7 +196,12 @@ func (c *conn) OnClosed(fn func()) (unsub func(), _ bool) {
 	// Add listener
 	id := c.addClosed(fn1)
 	if id == 0 {
-		return nil, false
+		// The listener can have been added and called by a concurrent close already.
+		// Report a failure only if it has not been called and never will be.
+		if called.CompareAndSwap(false, true) {
+			return nil, false
+		}
+		return func() {}, true
 	}
 
 	// Return unsubscribe
